@@ -649,6 +649,37 @@ func check(c Case) hx.Verdict {
 			}
 			labels = append(labels, "container_to_scalar_then_create")
 		}
+		// put-put over a path and its prefix, both created on the way: the later, shorter assignment wins and the
+		// value keeps its own type (a string that reads like a number stays a string)
+		if c.LHS == nil && (M[0].v == nil || M[0].v.K == model.Map || M[0].v.K == model.Null) {
+			for _, sv := range []string{"5", "true"} {
+				e7 := lhs + `.["nk1"].["nk2"] = 1 | ` + lhs + `.["nk1"] = "` + sv + `"`
+				if sv == "true" {
+					e7 = "(" + lhs + `.["nk1"].["nk2"], ` + lhs + `.["nk1"]) = "true"`
+				}
+				g, og := run1(e7, c.Doc)
+				if v := crash(og, e7, c.Doc); v != nil {
+					return *v
+				}
+				want := orig.Copy()
+				var ok7 bool
+				base := M[0].p
+				if M[0].v == nil || M[0].v.K == model.Null {
+					want, ok7 = set(want, base, model.NewMap())
+				} else {
+					ok7 = true
+				}
+				if ok7 {
+					want, ok7 = set(want, append(append([]Step{}, base...), Step{K: "nk1"}), model.NewStr(sv))
+				}
+				if ok7 && g != nil && !model.Equal(g, want) {
+					return hx.Bad("", "put-put over a created path and its prefix: `%s` gives %v, expected %s: doc=%s", e7, js(g), want.JSON(), c.Doc)
+				}
+				if ok7 && g != nil {
+					labels = append(labels, "create_deep_then_assign_prefix")
+				}
+			}
+		}
 		// get-put (existing single path)
 		if c.LHS == nil && M[0].v != nil {
 			e5 := lhs + " = " + lhs
@@ -700,7 +731,10 @@ func checkMultiIdx(c Case, orig *model.Value) hx.Verdict {
 		}
 	}
 	if hasNeg && hasPad {
-		// "the end" moves while the same traversal pads the sequence: not stated by the property
+		// "the end" moves while the same traversal pads the sequence: which element a negative index names then
+		// (the end before the traversal, or the end after the padding done by an earlier index of the same
+		// traversal) is not stated by the property, and every law of it can be read either way: `= ` resolves the
+		// path a second time after the padding, `|=` once. Both readings satisfy put-get and frame.
 		return hx.Unspec("negative_index_with_padding")
 	}
 	for _, i := range c.Idx {
